@@ -11,7 +11,7 @@ enum class Role : uint8_t { PREFIX, INTVAL, LENGTH, COUNT, ID, SIZE, HASH, INDEX
 struct Field { size_t off, len; Role role; int bits; bool is_signed; };
 using Bytes = std::vector<uint8_t>;
 
-struct EntrySpan { size_t id_off, size_off, val_off, end_off; int depth; uint64_t id; };
+struct EntrySpan { size_t id_off, size_off, val_off, end_off; int depth; uint64_t id; size_t count_field; /* index in Enc::fields of the COUNT field of the enclosing table */ };
 struct Enc {
   Bytes out; std::vector<Field> fields; std::vector<EntrySpan> entries; int tab_depth = 0;
   const std::vector<int64_t>* refs = nullptr; size_t next_ref = 0;   // references the writer returned for successive handles (else the value itself)
@@ -46,10 +46,10 @@ inline void RefEncode(const Sch& s, const Val& v, Enc& e){
     case K::VAR: e.prefix(0xb8); e.put_int((int64_t)v.u-1,Role::INDEX,32); if(v.u==0) e.prefix(0xbe); else RefEncode(s.kids[v.u-1],v.kids[0],e); break;
     case K::NILV: e.prefix(0xbe); break;
     case K::HND: { e.prefix(0xb7); e.put_uint(s.hash,Role::TAG,s.bits); int64_t ref = (e.refs && e.next_ref < e.refs->size()) ? (*e.refs)[e.next_ref++] : (int64_t)v.u; e.put_int(ref,Role::REF,64); } break;
-    case K::TAB: { e.prefix(0xb5); e.put_uint(s.hash,Role::HASH,64); uint64_t n=0; for(size_t i=0;i<s.kids.size();i++) if(s.active[i]&&v.kids[i].u) n++; e.put_uint(n,Role::COUNT,64);
+    case K::TAB: { e.prefix(0xb5); e.put_uint(s.hash,Role::HASH,64); uint64_t n=0; for(size_t i=0;i<s.kids.size();i++) if(s.active[i]&&v.kids[i].u) n++; size_t cfi=e.fields.size(); e.put_uint(n,Role::COUNT,64);
       for(size_t i=0;i<s.kids.size();i++) if(s.active[i]&&v.kids[i].u){ size_t ido=e.out.size(); e.put_uint(s.ids[i],Role::ID,64); size_t sz=RefSizeUpper(s.kids[i],v.kids[i].kids[0]); size_t szo=e.out.size(); e.put_uint(sz,Role::SIZE,64); size_t o=e.out.size();
         e.tab_depth++; RefEncode(s.kids[i],v.kids[i].kids[0],e); e.tab_depth--; size_t used=e.out.size()-o; if(used<sz){ e.fields.push_back({e.out.size(),sz-used,Role::PADDING,0,false}); e.out.insert(e.out.end(),sz-used,0);}
-        e.entries.push_back({ido,szo,o,e.out.size(),e.tab_depth,s.ids[i]}); } } break;
+        e.entries.push_back({ido,szo,o,e.out.size(),e.tab_depth,s.ids[i],cfi}); } } break;
   }
 }
 inline size_t usz(uint64_t v){ return v<128?1:v<256?2:v<65536?3:v<(1ull<<32)?5:9; }
